@@ -37,6 +37,12 @@ _min.update({
     'alias-operand:recv': 60000, 'alias-operand:view': 40000, 'alias-operand:T': 15000, 'alias-operand:elem': 12000,
     'alias-both-rejected:MdotV': 500, 'alias-both-rejected:VdotM': 500,  # the API's alias rejection, by both variants
 })
+# non-finite operands and -0 (monitors special, special.random): the 330 pairs of the float-like element types
+_min.update({
+    'max:special-pairs': 330, 'distinct special-pair': 330,
+    'special-judged:scalar/': 12000, 'special-judged:vector/dense': 10000, 'special-judged:vector/sparse': 10000,
+    'special-judged:matrix/dense': 12000, 'special-judged:matrix/sparse': 5000,
+})
 for _op in ['Abs', 'Add', 'AppendVector', 'At', 'Col', 'ConstAt', 'Diag', 'Div', 'Equals', 'Exp', 'Greater', 'Iterator', 'IteratorFrom',
             'JointIterator', 'Log', 'Log1p', 'LogAdd', 'LogSub', 'MaddM', 'MaddS', 'Max', 'MdivM', 'MdivS', 'MdotM', 'MdotV', 'Min', 'MmulM',
             'MmulS', 'MsubM', 'MsubS', 'Mul', 'Neg', 'Outer', 'Pow', 'Row', 'Set', 'Sign', 'Slice', 'Smaller', 'Sqrt', 'Sub', 'VaddS', 'VaddV',
@@ -54,6 +60,10 @@ CFG = {
             'its elements; a scalar parameter of a scalar receiver\'s type: the receiver) is invoked in BOTH variants under every combination '
             'of these alias options (2537 pair x combination cases, 40 / 400 operand draws each) and the two results are compared with each '
             'other; an alias that one variant rejects must be rejected by the other. '
+            'Monitors "special" / "special.random": the pairs of the float-like element types (330) with -Inf, +Inf, NaN and -0: scalar '
+            'pairs under every assignment of {finite, -Inf, +Inf, NaN, -0} to their scalar operands (at least one special; the receiver '
+            'special in 20 %), container pairs with special elements (-Inf, +Inf, NaN) and special scalar operands at random; same '
+            'comparison (NaN == NaN, -0 == +0). '
             'Monitor "random": one random invocation per case (random pair, dyadic k/8 values, small integers for integer types, derivative '
             'seeds for Real types with order 0/1/2, absent / stored-zero / zero-with-derivative entries, receivers that are slices or transposes '
             'of a larger parent, occasional dimension mismatches and out-of-range indices). Both variants are invoked through reflect on '
@@ -70,7 +80,8 @@ CFG = {
         'the registry of exported concrete types in harness/c09/registry.go is complete (written by hand from `grep "^type [A-Z]" /repo/*.go`); '
         'constant scalars, sparse constant vectors and DenseGradient have no generic/concrete pairs',
         'whether a sparse or joint iterator visits a position at which every element is null (value and derivatives zero) is representation, not result',
-        'non-finite operands are excluded; zero divisors are included and classed zero-divisor',
+        'non-finite operands and -0 are generated by the special monitors only (float-like element types; -0 only as a scalar operand, the '
+        'element builders cannot store it); zero divisors are included and classed zero-divisor',
     ],
 }
 
